@@ -56,3 +56,41 @@ Proof. exact jacoco_no_panic_refuted. Qed.
    the input's length (DESIGN F16; below 2^63 the request is made whatever its size) *)
 Theorem C14_jacoco_branch_vec_alloc : forall cb mb v, branch_vec cb mb = JOk v -> N.of_nat (length v) = alloc_request cb mb.
 Proof. exact branch_vec_alloc. Qed.
+
+(* ---- gcno / gcda (Model/GcnoRead.v, Model/GcnoCount.v) ---- *)
+From Grcov Require Import Model.GcnoCount Proofs.GcnoBase Proofs.GcnoReadSafe Proofs.GcnoCountSafe Proofs.GcnoFuel Proofs.GcnoPrefix.
+(* For EVERY byte string offered as gcno and every list of byte strings offered as gcda, with or without branches,
+   the model of Gcno::compute does not panic: every index expression of reader.rs is a checked lookup in the model
+   (a failed lookup is Panic), and none can fail. *)
+Theorem C14_gcno_never_panics : forall (gcno_buf : bytes) (gcdas : list bytes) (br : bool),
+  compute gcno_buf gcdas br <> Panic.
+Proof. exact compute_never_panics. Qed.
+
+(* The reading half is total with fuel = buffer length + 1: reading a gcno and any gcda list ends in a decoded
+   structure or an error, never a panic and never fuel exhaustion; the decoded graphs are well formed (every stored
+   edge id / block number is in range). *)
+Theorem C14_gcno_reader_total : forall (gcno_buf : bytes) (gcdas : list bytes),
+  match (let* g := read_gcno gcno_buf in ofold (read_gcda wrap64) gcdas g) with
+  | Ok g => wf_gcno g
+  | Err => True
+  | Panic => False
+  | OutOfFuel => False
+  end.
+Proof. exact (read_all_good wrap64). Qed.
+
+(* Fuel.  count_on_tree / propagate_counts with fuel = number of blocks + 2 never runs out, for any decoded structure. *)
+Theorem C14_gcno_stop_fuel : forall g, stop wrap64 g <> OutOfFuel.
+Proof. exact (stop_never_out_of_fuel wrap64). Qed.
+(* The whole computation never runs out of fuel when no source line of the gcno is carried by more than one block
+   (otherwise the circuit enumeration runs, whose depth/time is not bounded by a theorem: known finding). *)
+Theorem C14_gcno_fuel_partial : forall gcno_buf gcdas br,
+  (forall g, read_gcno gcno_buf = Ok g -> Forall single_block_lines (g_funs g)) ->
+  compute_map gcno_buf gcdas br <> OutOfFuel.
+Proof. exact (compute_fuel_partial wrap64 sub64). Qed.
+
+(* A truncated gcda: if reading the prefix p of a gcda p ++ k succeeds, the result is exactly the state that the
+   record loop of the run on p ++ k has at one of its record boundaries (the counters of complete records only). *)
+Theorem C14_gcda_prefix_safe : forall g p k gp,
+  read_gcda wrap64 g p = Ok gp ->
+  exists le version l2, gcda_body (p ++ k) = Some (le, version, l2) /\ boundary wrap64 le version g None l2 gp.
+Proof. exact (gcda_prefix_safe wrap64). Qed.
